@@ -183,8 +183,11 @@ def compound_types():
     en2 = T.Enum('En2', [('X', S('u16'), None), ('Y', t3, None)])
     dist = T.Distinct('Dist', t3)
     dopt = T.Distinct('DOpt', T.Opt(S('u32')))
-    decls = [cell, pair, t3, nest, en, en2, dist, dopt]
-    tys = [cell, pair, t3, nest, en, en2, dist, dopt,
+    # members whose size is not a multiple of their alignment, followed by a member of smaller or equal alignment
+    ou = T.Struct('OptThen', [('a', T.Opt(S('u32'))), ('b', S('u32'))])
+    ou2 = T.Struct('NestThen', [('a', T.Struct('Inner9', [('x', S('u64')), ('y', S('u8'))])), ('b', S('u64')), ('c', S('u16'))])
+    decls = [cell, pair, t3, nest, en, en2, dist, dopt, ou2.fields[0][1], ou, ou2]
+    tys = [cell, pair, t3, nest, en, en2, dist, dopt, ou, ou2,
            T.Opt(S('u8')), T.Opt(S('u16')), T.Opt(S('u64')), T.Opt(cell), T.Opt(T.Opt(S('u8'))), T.Opt(T.Array(2, T.Opt(S('u16')))), T.Opt(T.Ptr(S('u8'))),
            T.Opt(t3), T.Opt(en), T.Opt(dopt),
            T.Err(pair, S('u64')), T.Err(t3, S('u16')), T.Err(en, cell),
@@ -379,7 +382,7 @@ def run(chk, tier, seed):
     chk.cov['exhaustive'] = True
     chk.cov['explanation'] = 'L1: paths of the real simple_id functions over all field values; L2: paths of the compiled core.meta decoders over all simple ids; L3: closed terms per primitive (recorded as closed_terms, not as solver verdicts)'
     chk.bounds.update({'L1': 'disc < 63, size < 31, align < 15 (the asserted domain), bit widths {0,8,16,32,64,128}', 'L2': 'all 2^30 type ids whose discriminant is < 16',
-                       'L3': [p[0] for p in PRIMS], 'L4': '28 compound types of depth <= 2 (structs, enums, distincts, optionals incl. nested, error unions, arrays, pointers) in two declaration orders; 14 x 14 type equalities',
+                       'L3': [p[0] for p in PRIMS], 'L4': '30 compound types of depth <= 2 (structs, enums, distincts, optionals incl. nested, error unions, arrays, pointers) in two declaration orders; 14 x 14 type equalities',
                        'L4_facts': 'get_type_info: member count / offsets / types / names, tag offsets, payload and element types, array length, pointer mutability',
                        'outside_claim': ['`any`', 'variant discriminant values through reflection', 'compound types deeper than 2']})
     chk.assumptions.extend(['hook codegen::verif_hooks::convert (add-only)', 'the meta_type_to_u32 builtin is executed from its printed CLIF',
